@@ -23,7 +23,13 @@ for p in props:
         })
     else:
         na.append({"property_id": pid, "reason": c.get("reason", "check not built yet; no obligation is claimed")})
-hooks = claims["_hooks"]
+import subprocess
+try:
+    hooks = subprocess.run(["git", "-C", "/repo", "log", "--reverse", "--format=%H", "--grep=^verif:"], stdout=subprocess.PIPE, text=True, check=True).stdout.split()
+    claims["_hooks"] = hooks
+    json.dump(claims, open(os.path.join(V, "tools", "claims.json"), "w"), indent=1)
+except Exception:
+    hooks = claims["_hooks"]
 m = {
     "version": 1,
     "setup_cmd": "./check build && ./tools/warm.sh",
